@@ -454,5 +454,5 @@ pub fn seq_parts(ctx: &mut Ctx) {
         run_seq,
     );
     let strat = (0u8..2, 0u8..BASES.len() as u8, proptest::collection::vec(op_strategy(), 1..=12)).prop_map(|(storage, base, ops)| SeqCase { storage, base, ops });
-    ctx.proptest("seq.random", ctx.scale(24_000, 700_000), strat, run_seq);
+    ctx.proptest("seq.random", ctx.scale(24_000, 400_000), strat, run_seq);
 }
